@@ -709,6 +709,12 @@ def replay(ctx: Any, case: dict[str, Any]) -> None:
     import vgi_rpc.http.server._sticky as st
     from vgi_rpc.rpc import SessionLostError
 
+    if not case:  # a `no-longer-checks` file carries no single case: re-run the hand-written corpus
+        for ci, c in enumerate(CORPUS):
+            h = History(ctx, c["farm"], f"c{ci}")
+            with S.Rig() as rig:
+                h.run(c["ops"], rig)
+        return
     if case.get("kind") == "history":
         h = History(ctx, case["farm"])
         with S.Rig() as rig:
